@@ -353,17 +353,29 @@ func TestLinStalled(t *testing.T) {
 			sentCls = "fresh"
 		}
 
+		// the sentinel (key "ks") and the blocker (key "kb") are part of the history: cache_delete is judged over all keys
+		sop := linOp{ID: int(atomic.AddInt64(&idc, 1)), G: 0, Op: "Write", K: "ks", V: "sentinel", Cls: sentCls}
+		sop.Call = atomic.AddInt64(&stamp, 1)
 		_ = be.Write(classCtx(sentCls), sentinel, "sentinel")
+		sop.Ret = atomic.AddInt64(&stamp, 1)
+		record(sop)
 
 		// blocker parks inside the stats call-out under the lock of shard 64
 		var wg sync.WaitGroup
+
+		blockerCall := make(chan int64, 1)
+		blockerCall <- atomic.AddInt64(&stamp, 1)
 
 		wg.Add(1)
 
 		go func() {
 			defer wg.Done()
 
+			bop := linOp{ID: int(atomic.AddInt64(&idc, 1)), G: 3, Op: "Write", K: "kb", V: "blocker", Cls: "fresh"}
+			bop.Call = <-blockerCall
 			_ = be.Write(context.WithValue(context.Background(), blockMark{}, true), blocker, "blocker")
+			bop.Ret = atomic.AddInt64(&stamp, 1)
+			record(bop)
 		}()
 
 		<-entered
@@ -417,7 +429,10 @@ func TestLinStalled(t *testing.T) {
 		op.Ret = atomic.AddInt64(&stamp, 1)
 		record(op)
 
-		for _, mk := range models {
+		km.ByModel["ks"], km.ByModel["kb"] = sentinel, blocker
+		allKeys := append(append([]string{}, models...), "ks", "kb")
+
+		for _, mk := range allKeys {
 			op := linOp{ID: int(atomic.AddInt64(&idc, 1)), G: 0, Op: "Read", K: mk}
 			op.Call = atomic.AddInt64(&stamp, 1)
 			rr := be.Read(context.Background(), km.ByModel[mk])
@@ -429,7 +444,8 @@ func TestLinStalled(t *testing.T) {
 		sort.Slice(ops, func(i, j int) bool { return ops[i].Call < ops[j].Call })
 
 		_ = enc.Encode(map[string]interface{}{"h": 100000 + hi, "kind": kind, "collide": false, "goroutines": 3, "ops": ops,
-			"keys": models, "evict": false, "stalled": batch, "unlimited": unlimited})
+			"keys": allKeys, "evict": false, "stalled": batch, "unlimited": unlimited,
+			"metric_delete": stat.Total(cache.MetricDelete, "lin")})
 		res.Evaluations++
 		res.Steps += len(ops)
 	}
